@@ -799,6 +799,9 @@ def apply_fn_contract(toks, item, log):
     inserts = []  # (index, text)
     if item.get("spec"):
         inserts.append((ibody, "\n" + item["spec"].rstrip() + "\n"))
+    if item.get("header"):
+        # Verus function-level directives (hide / broadcast use): raw text, first thing in the body
+        inserts.append((ibody + 1, "\n" + item["header"].rstrip() + "\n"))
     loops = loop_headers(toks, ibody, iend)
     for n, spec in item.get("loops", {}).items():
         if n < 1 or n > len(loops):
@@ -913,6 +916,8 @@ def parse_unit(path):
             cur.setdefault("proofs", []).append((sub[1], text))
         elif sub[0] == "impl_items":
             cur["impl_items"] = text
+        elif sub[0] == "header":
+            cur["header"] = text
         buf = []
         sub = None
 
@@ -927,6 +932,17 @@ def parse_unit(path):
             if d == "postlude":
                 flush_sub()
                 mode = "postlude"
+                continue
+            if d.startswith("include_unit "):
+                inc = os.path.normpath(os.path.join(os.path.dirname(path), d[len("include_unit "):].strip()))
+                sub_unit = parse_unit(inc)
+                unit["prelude"] += sub_unit["prelude"]
+                unit["postlude"] += sub_unit["postlude"]
+                unit["items"] += sub_unit["items"]
+                unit["global_replace"] += sub_unit["global_replace"]
+                unit["strings"] += sub_unit["strings"]
+                if sub_unit.get("literal_to_string"):
+                    unit["literal_to_string"] = True
                 continue
             if d.startswith("include "):
                 inc = os.path.normpath(os.path.join(os.path.dirname(path), d[8:].strip()))
@@ -987,6 +1003,9 @@ def parse_unit(path):
                 elif d == "impl_items":
                     flush_sub()
                     sub = ("impl_items",)
+                elif d == "header":
+                    flush_sub()
+                    sub = ("header",)
                 elif d == "external_body":
                     flush_sub()
                     cur["external_body"] = True
